@@ -315,6 +315,74 @@ def build() -> Check:
                 bad.append(("the EXECUTION SUCCEED record does not carry the serialised result", t))
     ck.floor("wrapper_succeeded_traces", n_succ, 2)
     ck.ob("R5.wrapper-success-after-record", fn_construct(wrapper), not bad, (bad[0][0] + ": " + trace_sig(bad[0][1])[-600:]) if bad else "")
+    # R1 what a user strategy RETURNED is user data: reading it and computing with it can fail like the call itself (None for a forgotten return, a decision whose
+    # delay is not a number, a Mock). Every such use - attribute access, comparison, arithmetic, subscript, call - lies inside the guard that records the
+    # operation's failure; a use outside it leaves ctx.step() raising with nothing recorded (g2_steps2 #1: the reads; g3_late2 #1: `delay_seconds < 1`).
+    # Bare truth tests of such values are not counted (a __bool__ that raises is not a forgotten return).
+    n_uses = 0
+    for cls_mod, cls_name, meth in (("operation.step", "StepOperationExecutor", "retry_handler"), ("operation.wait_for_condition", "WaitForConditionOperationExecutor", "execute")):
+        fi_ = prog.cls(cls_mod, cls_name).methods.get(meth)
+        if fi_ is None:
+            raise AnalysisError(f"{cls_name}.{meth} not found")
+        derived = set()
+        assigns = [n for n in ast.walk(fi_.node) if isinstance(n, (ast.Assign, ast.AnnAssign)) and getattr(n, "value", None) is not None]
+
+        def targets_of(n):
+            tg = n.targets if isinstance(n, ast.Assign) else [n.target]
+            return {x.id for t in tg for x in ast.walk(t) if isinstance(x, ast.Name)}
+        for n in assigns:
+            if any(isinstance(c, ast.Call) and "strategy" in ast.unparse(c.func) and "config" not in ast.unparse(c.func).split("strategy")[-1] and c.args for c in ast.walk(n.value)
+                   if isinstance(c, ast.Call)):
+                derived |= targets_of(n)
+        if not derived:
+            raise AnalysisError(f"{cls_name}.{meth}: no call of the user strategy found")
+        changed = True
+        while changed:
+            changed = False
+            for n in assigns:
+                if any(isinstance(x, ast.Name) and x.id in derived for x in ast.walk(n.value)) and not targets_of(n) <= derived:
+                    # a constant re-initialisation in the fallback arm (`x = False, 0`) derives nothing
+                    derived |= targets_of(n)
+                    changed = True
+        par_ = {}
+        for n in ast.walk(fi_.node):
+            for c in ast.iter_child_nodes(n):
+                par_[id(c)] = n
+
+        def guarded_(n):
+            cur = par_.get(id(n))
+            while cur is not None:
+                if isinstance(cur, ast.Try) and any(n is x for b in cur.body for x in ast.walk(b)) and any(
+                        h.type is None or any(isinstance(x, ast.Name) and x.id in ("Exception", "BaseException") for x in ast.walk(h.type)) for h in cur.handlers):
+                    return True
+                cur = par_.get(id(cur))
+            return False
+
+        def is_d(e):
+            return isinstance(e, ast.Name) and e.id in derived
+        bad_u = []
+        for n in ast.walk(fi_.node):
+            use = None
+            if isinstance(n, ast.Attribute) and is_d(n.value) and isinstance(n.ctx, ast.Load):
+                use = f"{ast.unparse(n)}"
+            elif isinstance(n, ast.Compare) and (is_d(n.left) or any(is_d(c) for c in n.comparators)) and not all(isinstance(o, (ast.Is, ast.IsNot)) for o in n.ops):
+                use = ast.unparse(n)
+            elif isinstance(n, ast.BinOp) and (is_d(n.left) or is_d(n.right)):
+                use = ast.unparse(n)
+            elif isinstance(n, ast.Subscript) and is_d(n.value):
+                use = ast.unparse(n)
+            elif isinstance(n, ast.Call) and is_d(n.func):
+                use = ast.unparse(n)
+            if use is None:
+                continue
+            n_uses += 1
+            if not guarded_(n):
+                bad_u.append(f"line {n.lineno}: `{use}`")
+        ck.ob("R1.strategy-decision-is-used-inside-the-guard", fn_construct(fi_), not bad_u,
+              "; ".join(bad_u[:3]) + ": computed from what the user's strategy returned, outside the try that records the operation's failure - a decision that cannot be "
+              "read or compared (None, a non-numeric delay) makes the call raise with no RETRY / FAIL record; the next invocation shows the same call another outcome" if bad_u
+              else f"values derived from the decision: {sorted(derived)}")
+    ck.floor("strategy_decision_uses", n_uses, 4)
     # R2 the mailbox itself: CompletionEvent stores the error before it releases the waiter, and the waiter reads it after it was released (r7_C03 / r7_C06)
     from sa.common import completion_event_publication
     (ce_set, ce_wait), ce_rules, ce_an = completion_event_publication(prog)
